@@ -121,7 +121,9 @@ pub fn execd_value(k: u8) -> Vec<(&'static str, &'static str)> {
         0 => vec![],
         1 => vec![("p1", "p1")],
         2 => vec![("p1", "p2"), ("p2", "p1")],
-        _ => vec![("p1", "p1"), ("gone", "missing")],
+        // a single program: with several, HashMap order would decide how much is copied before the
+        // failure, which the explorer cannot own in-process
+        _ => vec![("gone", "missing")],
     }
 }
 pub fn src_content(file: &str) -> Vec<u8> {
